@@ -433,3 +433,13 @@ _c = PROPS["C19"]; _c["modules"] = list(_c.get("modules", ["C19"])) + ["Bridge"]
 _c = PROPS["C20"]; _c["modules"] = list(_c.get("modules", ["C20"])) + ["Bridge"]; _c["theorems"] = list(_c["theorems"]) + ["Wrapped_view_ok", "C20_accept_marshal"]; _c["level_text"] += " 'Marshaling it succeeds' (Props/Bridge.lean): for a struct Check accepts and a well-typed wrapped value every Get of the view returns and the view is in the domain of the marshal theorems (Wrapped_view_ok), hence MarshalResource - any prefix, field selection, relationship-data map, meta - neither panics nor fails and writes the object of the specification (C20_accept_marshal)."
 _c = PROPS["C09"]; _c["modules"] = list(_c.get("modules", ["C09"])) + ["C09P"]; _c["theorems"] = list(_c["theorems"]) + ["C09_pages_partition", "C09_pages_cover", "C09_pages_partition_filtered", "C09_allWf_soft"]; _c["level_text"] += " Partition for the model's Range itself (Props/C09P.lean): with collection, IDs, filter, rules and page size fixed there is one ordering of the matching resources such that page n returned by Range is its slice [n*size, (n+1)*size), pages 0..k-1 end to end are its first k*size elements (all of it once k*size reaches its length), every page is a contiguous sublist, two different pages share no ID and pages beyond the end are empty (C09_pages_partition, C09_pages_partition_filtered; coverage for size > 0: C09_pages_cover; AllWf for soft resources in the invariant: C09_allWf_soft). 'The input collection keeps its members and order' is not expressible on the functional model (said in Props/C09P.lean) and stays with the harness."
 _c = PROPS["C03"]; _c["modules"] = list(_c.get("modules", ["C03"])) + ["C03D"]; _c["theorems"] = list(_c["theorems"]) + ["C03_marshalResource_shape", "C03_marshalCollection_shape", "marshalDocument_members", "C03_document_resource_objects", "treeResObjs_marshalDocument", "C03_document_members_clauses", "C03_include_unique_tree", "ResObjShape.spelled", "RelObjShape.spelled"]; _c["level_text"] += " Document level (Props/C03D.lean): for whatever the model's MarshalDocument returns - no well-formedness hypothesis on the resources - the data member is the resource object of the primary resource / the array of those of the collection's members in order / the identifier(s) / null and the included member is the array of the resource objects of the included resources, each with string type, string id, the self link prefix + type + '/' + id and relationship objects carrying the self and related links and linkage data (C03_marshalResource_shape, C03_marshalCollection_shape, C03_document_resource_objects, C03_document_members_clauses); after any history of Include calls no (type, id) pair occurs twice among the resource objects of the data and included members of the marshaled TREE (C03_include_unique_tree)."
+
+# Work package W3 (item 1): url.go's rewrite of a leading '{' of the filter label's JSON body to \\u007b is
+# part of the model (rewriteBrace in Model/Url.lean, inside URL.string; the suites url / urlraw hand over the
+# UNREWRITTEN json.Marshal(label)[1:len-1]); Props/C08G.lean restates the four re-parse theorems without the
+# hypothesis `hbrace` (the label's JSON body does not start with '{').
+_c = PROPS["C08"]; _c["modules"] = list(_c.get("modules", ["C08"])) + ["C08G"]; _c["theorems"] = list(_c["theorems"]) + ["C08G_laws_of", "C08G_label_rt", "C08G_label_rt_valid", "C08G_real_codecs", "C08G_reparse", "C08G_reparse_codec", "C08G_reparse_real", "C08G_covers_old", "C08G_brace_label_roundtrip"]; _c["level_text"] += " The re-parse theorems no longer exclude labels starting with a brace (Props/C08G.lean): URL.String's rewrite of a leading '{' of the label's JSON body to the escape \\u007b is now part of the model of String() (rewriteBrace, compared with the real String() by the suites url and urlraw on labels such as '{x', '{', '{\"a\":1'), the modelled label decoder reads the rewritten body exactly like the body itself for every value (C08G_label_rt, C08G_real_codecs), and C08_reparse / C08F_reparse / C08F_reparse_real are restated without the hypothesis on the label's first byte (C08G_reparse under the codec laws CodecLawsG, C08G_reparse_codec and C08G_reparse_real with the modelled codec; the old theorems are instances: C08G_covers_old; the label '{a' evaluated end to end: C08G_brace_label_roundtrip). The only exclusion left is the known finding (NoEmptySelection)."
+_c = PROPS["C07"]; _c["modules"] = list(_c.get("modules", ["C07"])) + ["C08G"]; _c["theorems"] = list(_c["theorems"]) + ["C07G_reparse"]; _c["level_text"] += " C07G_reparse (Props/C08G.lean) is C07B_reparse - the re-parse from raw string to raw string through the full net/url model - without the hypothesis that the filter label's JSON body does not start with '{' (URL.String's \\u007b rewrite is now inside the model)."
+
+# Work package W3 (item 2): C11 on the MODEL's own post-state (Props/C11R.lean, Proofs/MarshalRepeatLemmas.lean).
+_c = PROPS["C11"]; _c["modules"] = list(_c.get("modules", ["C11"])) + ["C11R"]; _c["theorems"] = list(_c["theorems"]) + ["C11_model_post", "C11_model_post_fixed", "C11_model_repeat", "C11_model_repeat_dom", "C11_model_repeat_n", "C11_model_repeat_bytes", "C11_model_repeat_err", "C11_model_perm"]; _c["level_text"] += " On the model's OWN post-state (Props/C11R.lean): the document marshalDocument returns is characterised for every document (C11_model_post: included list sorted by ID, each marshaled resource with the to-many lists of its selected, data-wanted relationships sorted, nothing else) and a second marshal leaves it exactly as it is (C11_model_post_fixed, no domain needed); on the domain of C02-C04, if marshalDocument d = ok (t, d') then marshalDocument d' = ok (t, d') - the same tree and the same document again (C11_model_repeat) -, hence by induction the n-th repetition on the successive post-states returns (t, d') (C11_model_repeat_n) and the bytes Json.render writes are identical at every repetition (C11_model_repeat_bytes); marshalDocument itself returns the same tree for two documents whose to-many ID lists (primary resource, collection members, included resources) are permutations of each other and whose included lists are permutations with distinct IDs (C11_model_perm: C04_document composed with the C11_perm_* theorems)."
